@@ -406,12 +406,17 @@ class Token:
             self.name, self.index, ",".join(map(repr, self.inputs)))
 
 
-def token_function(name, n_out):
-    """ Function of the documented convention: () / single value / tuple. """
+def token_function(name, n_out, named=True):
+    """
+    Function of the documented convention: () / single value / tuple.
+    named=False keeps the __name__ every closure made here shares (as lambdas
+    built in a loop do): the function's name does not identify it either.
+    """
     def function(*xs):
         outs = tuple(Token(name, i, xs) for i in range(n_out))
         return outs[0] if n_out == 1 else outs
-    function.__name__ = name
+    if named:
+        function.__name__ = name
     return function
 
 
